@@ -123,11 +123,16 @@ func (e *Engine) lookup(x, k Value, xt, rt types.Type, commaOk bool, g *Term, po
 	return val
 }
 
+type iterEntry struct {
+	en    *MapEntry
+	alive *Term // condition under which the map this entry belongs to is the one being ranged over
+}
+
 type IterV struct {
-	m     *MapObj
+	typ   *types.Map
+	ents  []iterEntry // snapshot of the entries of every alternative map, in iteration order
 	n     int
 	pos   *Term // number of snapshot entries already passed (BV32)
-	alive *Term
 	str   string
 	isStr bool
 	spos  int
@@ -143,14 +148,26 @@ func (e *Engine) rangeStart(x Value, xt types.Type, g *Term, pos token.Pos) Valu
 		}
 		return &IterV{isStr: true, str: cs}
 	case RefV:
-		if len(v.alts) == 0 {
-			return &IterV{n: 0, pos: BV(32, 0), alive: TS.False}
+		it := &IterV{pos: BV(32, 0)}
+		if mt, ok := xt.Underlying().(*types.Map); ok {
+			it.typ = mt
 		}
-		if len(v.alts) > 1 {
-			panic(unsupported("range over map with several alternatives"))
+		for _, a := range v.alts {
+			m := a.o.(*MapObj)
+			it.typ = m.typ
+			ents := m.entries
+			if e.reverseMaps {
+				ents = make([]*MapEntry, len(m.entries))
+				for i, en := range m.entries {
+					ents[len(m.entries)-1-i] = en
+				}
+			}
+			for _, en := range ents {
+				it.ents = append(it.ents, iterEntry{en, a.c})
+			}
 		}
-		m := v.alts[0].o.(*MapObj)
-		return &IterV{m: m, n: len(m.entries), pos: BV(32, 0), alive: v.alts[0].c}
+		it.n = len(it.ents)
+		return it
 	case Poison:
 		return v
 	}
@@ -166,48 +183,34 @@ func (e *Engine) rangeNext(itv Value, in *ssa.Next, g *Term) Value {
 		if it.spos >= len(it.str) {
 			return TupleV{[]Value{TS.False, BV(64, 0), BV(32, 0)}}
 		}
-		if !g.IsTrue() {
-			// position update must be unconditional for concrete iteration; guard may be non-trivial but the loop
-			// structure is the same on every path through this iterator.
-		}
 		r, sz := utf8.DecodeRuneInString(it.str[it.spos:])
 		res := TupleV{[]Value{TS.True, BV(64, uint64(it.spos)), BV(32, uint64(r))}}
 		it.spos += sz
 		return res
 	}
+	var keyZ, valZ Value = BV(8, 0), BV(8, 0)
+	if it.typ != nil {
+		keyZ, valZ = zero(it.typ.Key()), zero(it.typ.Elem())
+	}
 	it.calls++
 	if it.calls > it.n {
 		// every snapshot entry has been passed
-		var kz, vz Value = BV(8, 0), BV(8, 0)
-		if it.m != nil {
-			kz, vz = zero(it.m.typ.Key()), zero(it.m.typ.Elem())
-		}
-		return TupleV{[]Value{TS.False, kz, vz}}
+		return TupleV{[]Value{TS.False, keyZ, valZ}}
 	}
-	tt := in.Type().(*types.Tuple)
-	var keyZ, valZ Value = BV(8, 0), BV(8, 0)
-	if it.m != nil {
-		keyZ, valZ = zero(it.m.typ.Key()), zero(it.m.typ.Elem())
-	}
-	_ = tt
 	found := TS.False
 	key, val := keyZ, valZ
 	newPos := it.pos
 	for i := 0; i < it.n; i++ {
-		idx := i
-		if e.reverseMaps {
-			idx = it.n - 1 - i
-		}
-		en := it.m.entries[idx]
-		if en.present.IsFalse() {
+		ie := it.ents[i]
+		if ie.en.present.IsFalse() {
 			continue
 		}
-		elig := And(it.alive, en.present, Cmp(OpULe, it.pos, BV(32, uint64(i))), Not(found))
+		elig := And(ie.alive, ie.en.present, Cmp(OpULe, it.pos, BV(32, uint64(i))), Not(found))
 		if elig.IsFalse() {
 			continue
 		}
-		key = iteV(elig, en.key, key)
-		val = iteV(elig, en.val, val)
+		key = iteV(elig, ie.en.key, key)
+		val = iteV(elig, ie.en.val, val)
 		newPos = Ite(elig, BV(32, uint64(i+1)), newPos)
 		found = Or(found, elig)
 	}
